@@ -206,14 +206,14 @@ def op_item(rec, item):
   lits = literals(d)
   make, make_seeded, arity = OPS[opname]
   tr = dict(kind='op', spec=sname)
-  cap = 3000 if tier == 'thorough' else 60
+  cap = 600 if tier == 'thorough' else 60
   if arity == 1:
     groups = [[l] for l in (lits if tier == 'thorough' else lits[:2] + lits[-1:])]
   else:
     pool = lits if len(lits) <= 6 else lits[:3] + lits[-3:]
     groups = [list(t) for t in itertools.permutations(pool, arity)]
-    if tier != 'thorough':
-      groups = groups[::max(1, len(groups) // 4)][:4]
+    keep = 4 if tier != 'thorough' else 12
+    groups = groups[::max(1, len(groups) // keep)][:keep]
   if arity >= 2:
     groups += [[l] * arity for l in (lits[0], lits[-1])]          # identical parents (also at the bounds of a float)
   for g in groups:
